@@ -585,13 +585,17 @@ theorem inv_edit {s s' : State} {m : EditMsg} (hs : Inv s) (h : stepEdit s m = .
       · simp only [hh, if_false]
         exact hold
 
+theorem inv_block {s : State} (dt : Nat) (cbs : List Cb) (hs : Inv s) :
+    Inv { applyCbs s cbs with now := (applyCbs s cbs).now + dt * 1000000000 } :=
+  inv_of_fields rfl rfl rfl rfl rfl (inv_applyCbs cbs hs)
+
 /-- one accepted operation (message, service callback, block) preserves the invariants -/
 theorem inv_step (s s' : State) (op : Op) (hs : Inv s) (h : step s op = .ok s') : Inv s' := by
   cases op with
-  | create m => exact inv_create hs (by simpa [step] using h)
-  | start n a => exact inv_start hs (by simpa [step] using h)
-  | pause n a => exact inv_pause hs (by simpa [step] using h)
-  | edit m => exact inv_edit hs (by simpa [step] using h)
+  | create m => exact inv_create hs h
+  | start n a => exact inv_start hs h
+  | pause n a => exact inv_pause hs h
+  | edit m => exact inv_edit hs h
   | respond acc cbs =>
     simp only [step] at h
     split at h
@@ -600,7 +604,7 @@ theorem inv_step (s s' : State) (op : Op) (hs : Inv s) (h : step s op = .ok s') 
   | block dt cbs =>
     simp only [step] at h
     cases h
-    exact inv_of_fields rfl rfl rfl rfl rfl (inv_applyCbs cbs hs)
+    exact inv_block dt cbs hs
   | bank => simp only [step] at h; cases h; exact hs
 
 theorem inv_apply (s : State) (op : Op) (hs : Inv s) : Inv (apply s op) := by
